@@ -92,7 +92,13 @@ where
         &self,
         symbol: impl Borrow<Self::Symbol>,
     ) -> Option<(Self::Probability, <Self::Probability as BitArray>::NonZero)> {
-        let symbol = symbol.borrow().as_();
+        let symbol = *symbol.borrow();
+        // All symbols in the support are `< 2^PRECISION`. Reject anything larger *before*
+        // narrowing to `Probability`, which could otherwise alias an in-support symbol.
+        if PRECISION < <usize as BitArray>::BITS && symbol >> PRECISION != 0 {
+            return None;
+        }
+        let symbol = symbol.as_();
         let left_cumulative = symbol.wrapping_mul(&self.probability_per_bin.get());
 
         #[allow(clippy::comparison_chain)]
